@@ -60,6 +60,10 @@ REAL = [
 SCM_DIRS = (b".git", b".svn")
 
 
+class Stop(Exception):
+    pass
+
+
 class Harness(Exception):
     """the harness could not establish its own preconditions (machinery failure, never a verdict)"""
 
@@ -276,8 +280,10 @@ class Replay:
         return os.path.join(self.root, p.encode())
 
     def viol(self, sig, **detail):
+        """the first deviation ends the replay of this behaviour: later ones would be consequences"""
         detail.update(instantiation=self.R["name"], hist=self.hist)
         self.violations.append((sig, detail))
+        raise Stop()
 
     def stamp(self, p, e):
         set_time(self.path(p), T0 + e[-1])
@@ -368,6 +374,13 @@ class Replay:
         return h
 
     def run(self):
+        try:
+            self._run()
+        except Stop:
+            pass
+        return self
+
+    def _run(self):
         mt = None
         burst = []
         for idx, act in enumerate(self.hist):
@@ -566,6 +579,13 @@ def ignore_probes():
 
 def exactness(pool, rep, model_trees, quick, seed):
     rng = random.Random(seed)
+    counts = {}
+
+    def violation(sig, detail):
+        counts[sig] = counts.get(sig, 0) + 1
+        if counts[sig] == 1:            # one written-out example per signature
+            rep.violation(sig, detail)
+
     trees = []                      # (ct, variations)
     var_kinds = ["times", "scm-top", "scm-nested"] + (["owner"] if os.geteuid() == 0 else [])
     tables = REAL[:2] if quick else REAL
@@ -594,9 +614,9 @@ def exactness(pool, rep, model_trees, quick, seed):
             if tid >= nprobe0:
                 continue            # probes are judged below, with their own signatures
             if hc != h:
-                rep.violation("cached-ne-plain:fresh-cache", {"tree": repr(trees[tid][0])[:1500], "variation": v})
+                violation("cached-ne-plain:fresh-cache", {"tree": repr(trees[tid][0])[:1500], "variation": v})
             if h != canon:
-                rep.violation("plain-ne-canonical:" + ",".join(sorted(kinds_of(trees[tid][0]))) + (":" + v if v != "base" else ""),
+                violation("plain-ne-canonical:" + ",".join(sorted(kinds_of(trees[tid][0]))) + (":" + v if v != "base" else ""),
                               {"tree": repr(trees[tid][0])[:1500], "variation": v, "real": h.hex(), "canonical": canon.hex()})
             by_key.setdefault(key, {}).setdefault(h, (tid, v))
             by_hash.setdefault(h, {}).setdefault(key, (tid, v))
@@ -604,14 +624,15 @@ def exactness(pool, rep, model_trees, quick, seed):
     for key, hs in by_key.items():
         if len(hs) > 1:
             vs = sorted({v for (_, v) in hs.values()})
-            rep.violation("same-tree-different-hash:" + "+".join(vs),
+            violation("same-tree-different-hash:" + "+".join(vs),
                           {"tree": repr(key)[:1500], "hashes": {h.hex(): w for h, w in hs.items()}})
     # equal hashes => equal trees
     for h, ks in by_hash.items():
         if len(ks) > 1:
             k = list(ks)
-            rep.violation("different-trees-same-hash:" + first_difference(k[0], k[1]),
+            violation("different-trees-same-hash:" + first_difference(k[0], k[1]),
                           {"hash": h.hex(), "tree1": repr(k[0])[:1500], "tree2": repr(k[1])[:1500]})
+    rep.extra["exactness_violation_counts"] = counts
     rep.extra["exactness_trees"] = len(by_key)
     rep.extra["exactness_hashes"] = len(by_hash)
     rep.extra["exactness_builds_with_variation"] = sum(1 for (_, v) in results if v != "base")
@@ -627,18 +648,42 @@ def exactness(pool, rep, model_trees, quick, seed):
             ignored.append(label)
         if h != canon:
             if h == hbase:
-                rep.violation("ignored-entry:%s:%s" % (name, kind), {
+                violation("ignored-entry:%s:%s" % (name, kind), {
                     "what": "hashDirectory() is blind to a %s named %s (%s level): the tree with and without it hash equal"
                             % (kind, name, level), "tree": repr(t), "hash": h.hex()})
             elif canon == hbase:
-                rep.violation("scm-dir-not-ignored:%s:%s" % (name, level), {"tree": repr(t), "hash": h.hex()})
+                violation("scm-dir-not-ignored:%s:%s" % (name, level), {"tree": repr(t), "hash": h.hex()})
             else:
-                rep.violation("plain-ne-canonical:probe:" + label, {"tree": repr(t), "real": h.hex(), "canonical": canon.hex()})
+                violation("plain-ne-canonical:probe:" + label, {"tree": repr(t), "real": h.hex(), "canonical": canon.hex()})
     rep.extra["entries_ignored_by_code"] = ignored
     return len(trees)
 
 
 # ----------------------------------------------------------------------------
+
+NW = max(1, int(os.environ.get("VF_WORKERS", "16") or 16))     # process / TLC worker budget of this run
+
+
+class Budget:
+    """at most NW TLC worker threads in flight over all concurrently running JVMs"""
+
+    def __init__(self, n):
+        self.free, self.cv = n, threading.Condition()
+
+    def take(self, n):
+        with self.cv:
+            while self.free < n:
+                self.cv.wait()
+            self.free -= n
+
+    def give(self, n):
+        with self.cv:
+            self.free += n
+            self.cv.notify_all()
+
+
+BUDGET = Budget(NW)
+
 
 class Job(threading.Thread):
     """one or more TLC runs, one after the other, in a background thread"""
@@ -653,7 +698,13 @@ class Job(threading.Thread):
     def run(self):
         try:
             for args, kw in self.runs:
-                self.results.append(tlc.run(*args, **kw))
+                kw = dict(kw, workers=max(1, min(kw.get("workers", NW), NW)))
+                kw.setdefault("timeout", 20000)
+                BUDGET.take(kw["workers"])
+                try:
+                    self.results.append(tlc.run(*args, **kw))
+                finally:
+                    BUDGET.give(kw["workers"])
         except BaseException as e:      # re-raised in the main thread
             self.exc = e
 
@@ -666,6 +717,40 @@ class Job(threading.Thread):
 
 def T(*args, **kw):
     return (args, kw)
+
+
+def replay_file(path):
+    """bin/check C11 --replay evidence/replay/C11-n.json: re-run the one recorded case and print what happens"""
+    import ast
+    with open(path) as f:
+        d = json.load(f)["detail"]
+    bad = 0
+    if "hist" in d:
+        R = [r for r in REAL if r["name"] == d["instantiation"]][0]
+        work = common.scratch("vf-c11r-")
+        r = Replay(d["hist"], R, work).run()
+        for sig, det in r.violations:
+            print("replayed: %s %s" % (sig, {k: v for k, v in det.items() if k != "hist"}))
+        bad = len(r.violations)
+    else:
+        bu = bob_utils()
+        for k in ("tree", "tree1", "tree2"):
+            if k not in d:
+                continue
+            t = ast.literal_eval(d[k])
+            if isinstance(t, tuple):        # abstract key -> tree
+                def un(key):
+                    return {e[0]: (("dir", e[2], un(e[3])) if e[1] == "dir" else ("file", e[3], e[2]) if e[1] == "file"
+                                   else ("link", e[2])) for e in key}
+                t = un(t)
+            root = os.path.join(common.scratch("vf-c11r-"), "t").encode()
+            os.mkdir(root)
+            build(root, t, itertools.count(1))
+            h, c = bu.hashDirectory(root), canon_dir(t)
+            print("replayed: %s real=%s canonical=%s %s" % (k, h.hex(), c.hex(), "EQUAL" if h == c else "DIFFERENT"))
+            bad += h != c
+    print("replay: %d deviation(s) reproduced" % bad)
+    return 1 if bad else 0
 
 
 def main():
@@ -684,7 +769,9 @@ def main():
     common.use_repo()
     bob_utils()                                   # import before fork
     os.umask(0o022)
-    pool = mp.get_context("fork").Pool(16)        # fork before any thread exists
+    if a.replay:
+        return replay_file(a.replay)
+    pool = mp.get_context("fork").Pool(NW)        # fork before any thread exists
     try:
         return run(a, rep, quick, pool)
     finally:
@@ -694,19 +781,19 @@ def main():
 
 def run(a, rep, quick, pool):
     # ---- start all TLC runs (generation first: the replays wait for it)
-    gen2 = Job(T("DirHash", "DirHash_gen2.cfg", workers=1, timeout=900))
+    gen2 = Job(T("DirHash", "DirHash_gen2.cfg", workers=1))
     gens = Job(T("DirHash", "DirHash_gen.cfg", workers=1, simulate="num=%d" % (300 if quick else 6000), depth=500,
-                 seed=a.seed + 1, timeout=1500))
-    gtrees = Job(T("DirHash", "DirHash_trees_quick.cfg" if quick else "DirHash_trees.cfg", workers=1, timeout=900))
+                 seed=a.seed + 1))
+    gtrees = Job(T("DirHash", "DirHash_trees_quick.cfg" if quick else "DirHash_trees.cfg", workers=1))
     chains = [(["DirHash_cov.cfg", "DirHash_merge.cfg"] + ([] if quick else ["DirHash_burst.cfg"]), None)]
     if quick:
-        chains.append((["DirHash.cfg"], 10))
+        chains.append((["DirHash.cfg"], 8))
     else:
         chains.append((["DirHash_thorough3.cfg"], 6))
         chains.append((["DirHash_thorough.cfg"], 8))
-    exh = [(cfgs, Job(*[T("DirHash", c, coverage=(c == "DirHash_cov.cfg"), workers=w or (2 if c == "DirHash_cov.cfg" else 4),
-                          timeout=3000) for c in cfgs])) for cfgs, w in chains]
-    reach = Job(*[T("DirHash", "DirHash_reach_%s.cfg" % n, workers=1, timeout=600) for n in REACH])
+    exh = [(cfgs, Job(*[T("DirHash", c, coverage=(c == "DirHash_cov.cfg"), workers=w or (2 if c == "DirHash_cov.cfg" else 4))
+                        for c in cfgs])) for cfgs, w in chains]
+    reach = Job(*[T("DirHash", "DirHash_reach_%s.cfg" % n, workers=1) for n in REACH])
 
     # ---- (B) replay
     hists = []
@@ -769,6 +856,13 @@ def run(a, rep, quick, pool):
     for n, res in zip(REACH, reach.get()):
         if res.violated != n:
             raise tlc.TlcError("vacuity: %s not reachable" % n)
+    rep.extra["bounds"] = {
+        "paths": list(TOP + SUB), "contents": 3, "file_modes": 2, "link_targets": 2, "dir_modes": 2, "base_trees": 6,
+        "exhaustive": "DirHash.cfg: <=3 modifications x 6 base trees (new files: 2 contents x 1 mode), hash after each" if quick else
+                      "DirHash_thorough3.cfg: <=3 modifications, full alphabets, 6 base trees; DirHash_thorough.cfg: <=4 "
+                      "modifications, base trees 3 and 5; DirHash_burst.cfg: <=2 modifications between two hashes",
+        "merge": "all (old index, tree) pairs over 5 names x {absent, v1, v2}",
+        "instantiations": [r["name"] for r in REAL], "workers": NW}
     if rep.drift:
         rep.level = "exploration"
     return rep.finish()
